@@ -1,11 +1,21 @@
 (* Command dispatcher of engine C02: document model (OpStr.v) + text path (Multiline.v). *)
 From Coq Require Import List String.
-From AC Require Import Base.Sexp Model.OpStr Model.Multiline.
+From AC Require Import Base.Strs Base.Sexp Gql.Lex Model.OpStr Model.Multiline.
 Import ListNotations.
 Local Open Scope string_scope.
 
+Definition e_tok (t : tok) : sexp :=
+  match t with
+  | TP c => L [A "p"; A (l2s [c])]
+  | TSpread => L [A "spread"]
+  | TW w => L [A "w"; A (l2s w)]
+  | TS r => L [A "s"; A (l2s r)]
+  | TB r => L [A "b"; A (l2s r)]
+  end.
+
 Definition run_c02 (e : sexp) : sexp :=
   match e with
+  | L [A "tokens"; A text] => sOpt (fun l => L (map e_tok l)) (tokens (s2l text))
   | L (A "docs" :: _) | L (A "sets" :: _) | L (A "closure" :: _) => run_opstr e
   | _ => run_multiline e
   end.
